@@ -259,23 +259,26 @@ Qed.
 Definition bstore_ok (s : bstore) : Prop :=
   Forall bres_ok (b_ress s) /\ Forall bset_ok (b_sets s) /\ Forall bann_ok (b_anns s).
 
+Lemma parse_list_jstr l : parse_list parse_jstr (map JStr l) = Some l.
+Proof. induction l as [|x l IH]; cbn; [reflexivity|]. rewrite IH. reflexivity. Qed.
+
 Theorem parse_json_of_bstore s : bstore_ok s -> parse_bstore (json_of_bstore s) = Some s.
 Proof.
-  destruct s as [id rs ss aa]. unfold bstore_ok. cbn [b_ress b_sets b_anns]. intros (Hr & Hs & Ha).
-  unfold json_of_bstore, parse_bstore. cbn [b_id b_ress b_sets b_anns].
-  destruct id as [i|]; cbn [ojstr app].
-  - change (mem_str K_type _) with (Some T_AnnotationStore).
-    change (member K_resources _) with (Some (JArr (map json_of_bres rs))).
-    change (member K_annotationsets _) with (Some (JArr (map json_of_bset ss))).
-    change (member K_annotations _) with (Some (JArr (map json_of_bann aa))).
-    change (mem_str K_id _) with (Some i).
-    cbn. rewrite (parse_list_map_ok _ _ _ parse_json_of_bres _ Hr), (parse_list_map_ok _ _ _ parse_json_of_bset _ Hs),
-      (parse_list_map_ok _ _ _ parse_json_of_bann _ Ha). reflexivity.
-  - change (mem_str K_type _) with (Some T_AnnotationStore).
-    change (member K_resources _) with (Some (JArr (map json_of_bres rs))).
-    change (member K_annotationsets _) with (Some (JArr (map json_of_bset ss))).
-    change (member K_annotations _) with (Some (JArr (map json_of_bann aa))).
-    change (mem_str K_id _) with (@None str).
-    cbn. rewrite (parse_list_map_ok _ _ _ parse_json_of_bres _ Hr), (parse_list_map_ok _ _ _ parse_json_of_bset _ Hs),
-      (parse_list_map_ok _ _ _ parse_json_of_bann _ Ha). reflexivity.
+  destruct s as [id inc rs ss aa]. unfold bstore_ok. cbn [b_ress b_sets b_anns]. intros (Hr & Hs & Ha).
+  unfold json_of_bstore, parse_bstore. cbn [b_id b_include b_ress b_sets b_anns].
+  destruct id as [i|]; destruct inc as [|f [|g inc]]; cbn [ojstr app json_of_includes];
+    change (mem_str K_type _) with (Some T_AnnotationStore);
+    change (member K_resources _) with (Some (JArr (map json_of_bres rs)));
+    change (member K_annotationsets _) with (Some (JArr (map json_of_bset ss)));
+    change (member K_annotations _) with (Some (JArr (map json_of_bann aa)));
+    unfold parse_includes;
+    try change (member K_include _) with (@None json);
+    try change (member K_include _) with (Some (JStr f));
+    try change (member K_include _) with (Some (JArr (map JStr (f :: g :: inc))));
+    try change (mem_str K_id _) with (Some i);
+    try change (mem_str K_id _) with (@None str);
+    cbv iota beta; rewrite ?parse_list_jstr;
+    cbn [negb str_eqb]; change (str_eqb T_AnnotationStore T_AnnotationStore) with true; cbn [negb parse_arr];
+    rewrite (parse_list_map_ok _ _ _ parse_json_of_bres _ Hr), (parse_list_map_ok _ _ _ parse_json_of_bset _ Hs),
+      (parse_list_map_ok _ _ _ parse_json_of_bann _ Ha); reflexivity.
 Qed.
